@@ -38,6 +38,8 @@ pub fn main() {
         let mut rt = CoreRuntime::new();
         let mut rt_flag = CoreRuntime::new();   // same writes, but FC/FZ go through the by-name flag API set_flag/get_flag
         let mut flag_after = Vec::new();
+        let mut state_acc = LlamaState::new();   // same writes, but PC goes through the dedicated accessors set_pc()/pc()
+        let mut acc_after = Vec::new();
         let k = v.get("roundtrip_every").and_then(|x| x.as_u64()).unwrap_or(0) as usize;
         let mut after = Vec::new();
         let mut rt_after = Vec::new();
@@ -57,6 +59,14 @@ pub fn main() {
                 }
                 flag_after.push(json!({"regs": NAMES.iter().map(|n| rt_flag.get_reg(n)).collect::<Vec<u32>>(),
                                        "fc": rt_flag.get_flag("FC"), "fz": rt_flag.get_flag("FZ")}));
+                if name == "PC" {
+                    state_acc.set_pc(val);
+                } else if let Some(r) = reg(name) {
+                    state_acc.set_reg(r, val);
+                }
+                let mut acc = all(&state_acc);
+                acc[10] = state_acc.pc();
+                acc_after.push(json!({"regs": acc, "pc_by_name": state_acc.get_reg(RegName::PC)}));
                 after.push(all(&state));
                 rt_after.push(NAMES.iter().map(|n| rt.get_reg(n)).collect::<Vec<u32>>());
                 if k > 0 && (i + 1) % k == 0 {
@@ -85,7 +95,7 @@ pub fn main() {
             }
         }
         let mut out = json!({"id": v.get("id").cloned().unwrap_or(Value::Null), "after": after,
-                             "rt_after": rt_after, "flag_after": flag_after, "roundtrips": rts});
+                             "rt_after": rt_after, "flag_after": flag_after, "acc_after": acc_after, "roundtrips": rts});
         if let Some(h) = v.get("unpack_blob").and_then(|b| b.as_str()) {
             let bytes: Vec<u8> = (0..h.len() / 2).filter_map(|i| u8::from_str_radix(&h[2 * i..2 * i + 2], 16).ok()).collect();
             match unpack_registers(&bytes) {
